@@ -216,10 +216,14 @@ class C09(PropBase):
                 # members whose names start with an underscore are members of the graph like any other
                 "@dataclasses.dataclass\nclass VwPrivTree:\n    value: int\n    _tag: VwSame = None\n"
                 "    _children: 'list[VwPrivTree]' = dataclasses.field(default_factory=list)\n    _parent: 'typing.Optional[VwPrivTree]' = None\n"
-                "class VwPrivPlain:\n    def __init__(self, _owner: VwSame, _n: int = 0):\n        self._owner = _owner\n")})
+                "class VwPrivPlain:\n    def __init__(self, _owner: VwSame, _n: int = 0):\n        self._owner = _owner\n"
+                # classes nested in classes, named by module-qualified text
+                "class VwNestNS:\n    @dataclasses.dataclass\n    class VwNode:\n        v: int = 0\n        kids: 'list[VwNestNS.VwNode]' = dataclasses.field(default_factory=list)\n"
+                "    class VwDeep:\n        @dataclasses.dataclass\n        class VwItem:\n            n: int = 0\n            tag: VwSame = None\n")})
             roots.append({"k": "raw", "src": rng.choice(["typing.Iterator[int]", "collections.abc.Iterator[vw0.VwSame]", "collections.ChainMap[str, vw0.VwSame]",
                                                          "vw0.VwPage[vw0.VwSame]", "list[typing.Iterator[vw0.VwSame]]", "dict[str, vw0.VwPage[int]]", "vw0.VwFeed",
-                                                         "collections.abc.KeysView[str]", "typing.Generator[int, None, None]", "vw0.VwPrivTree", "list[vw0.VwPrivTree]", "vw0.VwPrivPlain", "vw0.VwPrivTree"])})
+                                                         "collections.abc.KeysView[str]", "typing.Generator[int, None, None]", "vw0.VwPrivTree", "list[vw0.VwPrivTree]", "vw0.VwPrivPlain", "vw0.VwPrivTree",
+                                                         "vw0.VwNestNS.VwNode", "vw0.VwNestNS.VwDeep.VwItem", "vw0.VwNestNS.VwNode"])})
         # (two member orders of one member set in one process is the union-order alias that C08/C12 record;
         # this check is about the shape of the graph, not about which equal union was built first)
         gen.one_order_per_member_set(world, roots)
